@@ -12,17 +12,24 @@ ID = 'C20'
 DRIVERS = ('driver_effects',)
 THEOREMS = [
     'Eff.checkCert_sound',
+    'Eff.may_sound',
+    'Eff.writes_sound',
     'PbBss.C20.checkCert_sound',
+    'PbBss.C20.summary_sound',
+    'PbBss.C20.allEntryPointsPure',
     'PbBss.C20.pure_of_cert',
     'PbBss.C20.summaries_consistent',
-    'PbBss.C20.allEntryPointsPure',
     'PbBss.C20.exceptions_listed',
+    'PbBss.C20.entryPoints_cover',
+    'PbBss.C20.reachable_cache_inv',
     'PbBss.C20.reuse_eq_fresh',
     'PbBss.C20.rejects_other_dimension',
-    'PbBss.C20.reachable_cache_inv',
     'PbBss.C20.table_used_is_for_dimension',
+    'PbBss.C20.dimension_bound_after_accept',
     'PbBss.C20.fit_split',
+    'PbBss.C20.fit_split_loop',
     'PbBss.C20.fit_composition',
+    'PbBss.C20.fit_composition_from_model',
     'PbBss.C20.fit_deterministic',
 ]
 ASSUMPTIONS = [
@@ -218,8 +225,293 @@ def split_composition(args, composition):
 
 
 # ----------------------------------------------------------------------------- correspondence
+_ANALYSIS = {}
+
+
+def _analysis():
+    if 'res' not in _ANALYSIS:
+        from ..translate import effects
+        _ANALYSIS['res'] = effects.analyse_repo(REPO)
+    return _ANALYSIS['res']
+
+
+def _cert_line(ir, stmts=None):
+    stmts = ir['stmts'] if stmts is None else stmts
+    toks = ['cert', len(ir['params'])] + list(ir['params']) + [len(stmts)]
+    for st in stmts:
+        if st[0] == 'alloc':
+            toks += [0, st[1]]
+        elif st[0] == 'alias':
+            toks += [1, st[1], len(st[2])] + list(st[2])
+        else:
+            toks += [2, st[1]]
+    toks.append(len(ir['may']))
+    for v, ps in ir['may']:
+        toks += [v, len(ps)] + list(ps)
+    return ' '.join(str(t) for t in toks)
+
+
+def _corr_certificates(ctx):
+    """(1) verdict of the python-side analysis == verdict of the Lean checker (compiled `Eff.checkCert`) per function;
+    injected writes on parameter-aliased variables must be rejected by the Lean checker"""
+    from ..translate import effects
+    res = _analysis()
+    rng = ctx.rng
+    lines, metas = [], []
+    for q, rec in sorted(res['functions'].items()):
+        ir = effects.to_ir(rec)
+        lines.append(_cert_line(ir))
+        metas.append((q, 'as-generated', not rec['mutates'], sorted(ir['mutates'])))
+        aliased = [v for v, ps in ir['may'] if ps]
+        if aliased:
+            v = aliased[int(rng.integers(len(aliased)))]
+            lines.append(_cert_line(ir, ir['stmts'] + [('write', v)]))
+            want = sorted(set(ir['mutates']) | set(dict(ir['may'])[v]))
+            metas.append((q, 'injected-write', False, want))
+    out = run_driver(lines, exe='driver_effects')
+    for (q, kind, pure, muts), o in zip(metas, out):
+        t = [int(x) for x in o.split()]
+        ok = (t[0] == int(pure)) and t[1] == 1 and sorted(t[3:]) == muts
+        ctx.corr(f'checkCert[{kind}]', ok, f'{q}: python verdict pure={pure} mutates={muts}; lean checkCert={t[0]} '
+                 f'checkAlias={t[1]} writesTo={t[3:]}', {'function': q})
+    ctx.count('translator-functions', len(res['functions']))
+    notes = sorted({n for r in res['functions'].values() for n in r['notes']})
+    if notes:
+        ctx.note('translator assumptions used: ' + '; '.join(notes))
+    ctx.sample({'op': 'checkCert', 'function': metas[0][0], 'line': lines[0][:120]})
+
+
+def _corr_static_vs_dynamic(ctx):
+    """(1b) the translator's verdict against an actual call: bytes changed => the static analysis must have said so"""
+    res = _analysis()
+    rng = ctx.rng
+    for name in sorted(P.REG):
+        e = P.REG[name]
+        q = name.split('[')[0]
+        rec = res['functions'].get(q)
+        if rec is None:
+            ctx.count('static-vs-dynamic:no-static-counterpart')
+            continue
+        for v in e.variants[:3]:
+            args = P.make_args(name, rng, v)
+            snap = P.snapshot(args)
+            _, ex, a1 = P.invoke(name, args)
+            dyn = sorted({_top(p) for p in P.changed(snap, a1) if not p.startswith('_')})
+            static_mut = set(rec['mutates'])
+            if dyn and not static_mut:
+                ctx.corr('static-vs-dynamic', False, f'{name}[{v}]: call changed argument(s) {dyn} but the translator '
+                         f'reports no write reaching a parameter', {'entry': name, 'args': args})
+            else:
+                ctx.corr('static-vs-dynamic', True)
+                if static_mut and not dyn:
+                    ctx.count('static-overapproximation:' + q)
+
+
+def _probe_calls(fn, a, b):
+    for args in ((a,), (a, b), (a, -1), (a, 0), ((a, b),), (a, 1, -1), (a, 0, 1), (a.shape,), (3,), (a, a.shape), (a, 2),
+                 (a, [0], -1), (a, np.argsort(a, -1), -1), (0., 1., 5), (a, 50.), (5, a.shape), (a, 0., 1.), (a > 0, a, b)):
+        try:
+            return args, fn(*args)
+        except Exception:  # noqa
+            continue
+    return None, None
+
+
+def _corr_primitive_table(ctx):
+    """(1c) the translator's NumPy table: functions classified FRESH must not return memory shared with an argument and
+    must not modify it; the einsum view rule; in-place primitives do modify (sanity)"""
+    from ..translate import effects
+    res = _analysis()
+    w = res['world']
+    rng = ctx.rng
+    base = rng.normal(size=(3, 3)) + 3 * np.eye(3)
+    for name in sorted(w.np_used):
+        if name not in effects.NP_FRESH or name in ('errstate', 'linalg.LinAlgError', 'finfo', 'iinfo'):
+            continue
+        fn = np
+        try:
+            for part in name.split('.'):
+                fn = getattr(fn, part)
+        except AttributeError:
+            ctx.count('primitive-missing-in-this-numpy:' + name)
+            continue
+        done = False
+        for a in (base.copy(), (base + 1j * base.T).copy()):
+            b = a.T.copy()
+            a0, b0 = a.copy(), b.copy()
+            args, r = _probe_calls(fn, a, b)
+            if args is None:
+                continue
+            done = True
+            leaves = [x for _, x in P.arrays({'r': list(r) if isinstance(r, tuple) else r})]
+            shares = any(np.shares_memory(x, y) for x in leaves for y in (a, b))
+            unchanged = np.array_equal(a, a0) and np.array_equal(b, b0)
+            ctx.corr('primitive-table[fresh]', (not shares) and unchanged,
+                     f'np.{name}: shares memory with an argument={shares}, arguments unchanged={unchanged}')
+        if not done:
+            ctx.count('primitive-not-probed:' + name)
+    a = base.copy()
+    for m in sorted(w.nd_used):
+        if not hasattr(a, m):
+            continue
+        try:
+            r = getattr(a, m)() if m != 'astype' else a.astype(np.complex128)
+        except Exception:  # noqa
+            continue
+        shares = isinstance(r, np.ndarray) and np.shares_memory(r, a)
+        ctx.corr('primitive-table[fresh-method]', not shares and np.array_equal(a, base), f'ndarray.{m}: shares={shares}')
+    # einsum: single operand, no summed letter -> may be a view; summed letter or several operands -> fresh
+    for spec, view in (('...nd->...dn', True), ('...dd', False), ('...nd->...d', False), ('ij', True), ('ii', False)):
+        r = np.einsum(spec, a)
+        shares = isinstance(r, np.ndarray) and np.shares_memory(r, a)
+        ctx.corr('primitive-table[einsum]', (not shares) or view, f'einsum({spec!r}) shares={shares}, table says view={view}')
+    r = np.einsum('ij,jk->ik', a, a)
+    ctx.corr('primitive-table[einsum]', not np.shares_memory(r, a), 'einsum with two operands must be fresh')
+    ctx.corr('primitive-table[array]', not np.shares_memory(np.array(a), a) and not np.shares_memory(np.array(a, copy=True), a),
+             'np.array(x) copies')
+    for name in ('fill_diagonal',):
+        x = a.copy()
+        np.fill_diagonal(x, 7.)
+        ctx.corr('primitive-table[inplace]', not np.array_equal(x, a), 'np.fill_diagonal modifies its first argument')
+
+
+def _corr_trainer_sm(ctx):
+    """(2) op sequences on the real trainers vs the Lean state machine: accept / reject, table used, final state"""
+    rng = ctx.rng
+    lines, metas = [], []
+    for i in range(ctx.n(150, 1500)):
+        kind = P.pick(rng, ['CWMMTrainer', 'CBMMTrainer', 'ComplexWatsonTrainer', 'ComplexBinghamTrainer'])
+        dmax = 3 if kind in ('CBMMTrainer', 'ComplexBinghamTrainer') else 4
+        c = int(rng.integers(2, dmax + 1)) if rng.random() < 0.3 else None
+        n = int(rng.integers(0, 7))
+        main = int(rng.integers(2, dmax + 1))
+        ops = []
+        for j in range(n):
+            d = main if rng.random() < 0.7 else int(rng.integers(2, dmax + 2))
+            u = 1
+            if kind in ('CWMMTrainer', 'CBMMTrainer') and rng.random() < 0.2:
+                u = 0
+            ops.append((d, u))
+        cls = P.TRAINERS[kind]
+        tr = cls(**({'dimension': c} if c is not None else {}))
+        real = []
+        for d, u in ops:
+            spec = P.g_trainer_fit(rng, kind, d)
+            if 'iterations' in spec:
+                spec['iterations'] = int(rng.integers(1, 3)) if u else 0
+            status, r = P.trainer_fit(tr, kind, spec)
+            dim, cached, _ = P.trainer_state(tr, kind)
+            real.append((status, cached if u else None))
+        dim, cached, _ = P.trainer_state(tr, kind)
+        lines.append(' '.join(map(str, ['sm', 0 if c is None else c + 1, n] + [x for o in ops for x in o])))
+        metas.append((kind, c, ops, real, dim, cached))
+        ctx.count(f'corr-sm:{kind}:len{n}')
+    out = run_driver(lines, exe='driver_effects')
+    for (kind, c, ops, real, dim, cached), o in zip(metas, out):
+        t = [int(x) for x in o.split()]
+        ok, why = True, ''
+        has_table = kind != 'ComplexBinghamTrainer'
+        for j, ((status, table), (d, u)) in enumerate(zip(real, ops)):
+            acc, tab = t[2 * j], t[2 * j + 1]
+            if status == 'error' or (acc == 1) != (status == 'ok'):
+                ok, why = False, f'op {j} (d={d}): code {status}, model accepted={acc}'
+                break
+            if acc and u and has_table and (tab - 1 if tab else None) != table:
+                ok, why = False, f'op {j} (d={d}): code used table for {table}, model {tab - 1 if tab else None}'
+                break
+        enc = lambda x: 0 if x is None else x + 1  # noqa
+        if ok and (t[-2] != enc(dim) or (has_table and t[-1] != enc(cached))):
+            ok, why = False, f'final state: code (dimension={dim}, cachedFor={cached}), model {t[-2:]} (0=None, else d+1)'
+        ctx.corr(f'trainer-sm[{kind}]', ok, f'ctor={c} ops={ops}: {why}', {'kind': kind, 'ctor': c, 'ops': ops})
+    if metas:
+        ctx.sample({'op': 'trainer-sm', 'kind': metas[0][0], 'ctor': metas[0][1], 'ops(d,uses_table)': metas[0][2],
+                    'driver_line': lines[0], 'driver_out': out[0]})
+
+
+def _traced_fits(args, parts):
+    """consecutive CACGMMTrainer fits with the E-/M-step calls recorded (methods wrapped in-process, restored after)"""
+    import pb_bss.distribution.cacgmm as m
+    trace = []
+    orig_m, orig_e = m.CACGMMTrainer._m_step, m.CACGMM._predict
+
+    def m_step(self, *a, **k):
+        trace.append(1)
+        return orig_m(self, *a, **k)
+
+    def predict(self, *a, **k):
+        trace.append(0)
+        return orig_e(self, *a, **k)
+    m.CACGMMTrainer._m_step, m.CACGMM._predict = m_step, predict
+    try:
+        model = _init_of(args)
+        for k in parts:
+            model = P.cacgmm_fit_from(args, model, int(k))
+    finally:
+        m.CACGMMTrainer._m_step, m.CACGMM._predict = orig_m, orig_e
+    return trace
+
+
+def _corr_split_trace(ctx):
+    """(3) the loop of CACGMMTrainer.fit: sequence of E- and M-step calls of the code == the transcribed loop"""
+    rng = ctx.rng
+    lines, metas = [], []
+    for i in range(ctx.n(40, 400)):
+        v = P.pick(rng, ['affiliation', 'num_classes', 'saliency', 'wca-3', 'aligner', 'model'])
+        args = P.g_cacgmm_fit(rng, v, iterations=1)
+        args['_variant'] = v
+        nmax = 8 if ctx.tier == 'quick' else 20
+        parts = [int(rng.integers(1, 5)) for _ in range(int(rng.integers(1, 5)))]
+        while sum(parts) > nmax:
+            parts.pop()
+        parts = parts or [1]
+        trace = _traced_fits(args, parts)
+        if v == 'model':
+            lines.append(f'trace 1 {sum(parts)}')
+        else:
+            lines.append(' '.join(map(str, ['split', parts[0], len(parts) - 1] + parts[1:])))
+        metas.append((v, parts, trace))
+        ctx.count(f'corr-split-trace:{v}')
+    out = run_driver(lines, exe='driver_effects')
+    for (v, parts, trace), o in zip(metas, out):
+        got = [int(x) for x in o.split()]
+        ctx.corr('fit-loop-trace', got == trace, f'start={v} consecutive fits {parts}: code E/M trace {trace}, model {got}',
+                 {'variant': v, 'parts': parts})
+    if metas:
+        ctx.sample({'op': 'fit-loop-trace', 'start': metas[0][0], 'parts': metas[0][1], 'trace(0=E,1=M)': metas[0][2]})
+
+
+def _corr_translator_corpus(ctx):
+    """(1d) soundness corpus of the translator: synthetic functions that modify their arguments through loops, joins,
+    containers, closures, callee summaries, properties, in-place primitives ... are executed on real arrays; every
+    argument whose bytes change must be reported by the translator (the converse is allowed: over-approximation)"""
+    from ..translate import effects
+    res = effects.analyse_repo(REPO, files=[], sources={'pb_bss/synth.py': P.SYNTH_SRC})
+    ns = {}
+    exec(compile(P.SYNTH_SRC, 'c20-synthetic-corpus', 'exec'), ns)
+    rng = ctx.rng
+    for q, rec in sorted(res['functions'].items()):
+        name = q.split('.', 1)[1]
+        if not name.startswith(('m_', 'p_')):
+            continue
+        a, b = rng.normal(size=(4, 3)), rng.normal(size=(4, 3))
+        a0, b0 = a.copy(), b.copy()
+        ns[name](a, b)
+        dyn = {n for n, x, x0 in (('a', a, a0), ('b', b, b0)) if x.shape != x0.shape or not np.array_equal(x, x0)}
+        static = set(rec['mutates'])
+        ok = dyn <= static and (bool(dyn) == name.startswith('m_')) and (name.startswith('m_') or not static)
+        ctx.corr('translator-corpus', ok, f'{name}: arguments changed by the call {sorted(dyn)}, reported by the '
+                 f'translator {sorted(static)}', {'function': name})
+        if static - dyn:
+            ctx.count('translator-corpus:over-approximation')
+
+
 def corr(ctx):
-    return
+    _corr_certificates(ctx)
+    _corr_translator_corpus(ctx)
+    _corr_static_vs_dynamic(ctx)
+    _corr_primitive_table(ctx)
+    _corr_trainer_sm(ctx)
+    _corr_split_trace(ctx)
 
 
 def _search_entries(ctx, reps):
@@ -300,9 +592,10 @@ def _search_splits(ctx):
         args = P.g_cacgmm_fit(rng, 'affiliation', iterations=1)
         args['_variant'] = 'affiliation'
         t = time.time()
-        ctx.run(split_fits_equal_uninterrupted, args=args, n=15)
-        ctx.count('split-exhaustive:n<=15', 2 ** 15 - 1)
-        ctx.note(f'exhaustive composition tree n<=15: {time.time() - t:.0f} s')
+        deep_n = 16 if ctx.time_left() > 900 else 14
+        ctx.run(split_fits_equal_uninterrupted, args=args, n=deep_n)
+        ctx.count(f'split-exhaustive:n<={deep_n}', 2 ** deep_n - 1)
+        ctx.note(f'exhaustive composition tree n<={deep_n}: {time.time() - t:.0f} s')
     nmax = 8 if quick else 20
     args = P.g_cacgmm_fit(rng, 'affiliation', iterations=1)
     args['_variant'] = 'affiliation'
@@ -314,8 +607,8 @@ def _search_splits(ctx):
                     if ctx.out_of_time(reserve=20):
                         break
                     ctx.run(split_composition, args=args, composition=[a, b, n - a - b])
-            ctx.count(f'split-le3parts:n={n}')
-    for i in range(ctx.n(20, 1500)):
+            ctx.count(f'split-le3parts:n={n}', (n - 1) + (n - 1) * (n - 2) // 2)
+    for i in range(ctx.n(60, 1500)):
         if ctx.out_of_time(reserve=10):
             break
         v = P.pick(rng, variants)
@@ -336,5 +629,5 @@ def search(ctx):
         ctx.count('uncovered-entry-points', len(missing))
     ctx.count('public-surface', len(P.public_surface()))
     _search_splits(ctx)
-    _search_trainers(ctx, ctx.n(60, 1500))
-    _search_entries(ctx, ctx.n(2, 30))
+    _search_trainers(ctx, ctx.n(200, 2500))
+    _search_entries(ctx, ctx.n(4, 40))
